@@ -19,7 +19,10 @@ def build_input(call):
     n = call['n']
     elem = call.get('elem', 'scalar')
 
+    base = call.get('base', 0)
+
     def mk(i):
+        i = i + base
         if elem == 'scalar':
             return i
         if elem == 'tuple':
@@ -42,14 +45,14 @@ def build_input(call):
     if kind == 'list':
         return [mk(i) for i in range(n)]
     if kind == 'range':
-        return range(n)
+        return range(base, base + n)
     if kind == 'gen':
         return (mk(i) for i in range(n + extra))
     if kind == 'ndarray':
         import numpy as np
         if call.get('ndim', 1) == 2:
-            return np.arange(n * 3).reshape(n, 3)
-        return np.arange(n)
+            return np.arange(n * 3).reshape(n, 3) + base
+        return np.arange(n) + base
     raise ValueError(kind)
 
 
